@@ -54,6 +54,10 @@ func NewSubRingWithCustomNTT(N int, Modulus uint64, ntt func(*SubRing, int) Numb
 		panic(fmt.Errorf("invalid NthRoot: NthRoot=%d should be greater than 0", NthRoot))
 	}
 
+	if Modulus == 0 {
+		return nil, fmt.Errorf("invalid modulus: must be a prime but is 0")
+	}
+
 	s = &SubRing{}
 
 	s.N = N
@@ -270,10 +274,18 @@ func newSubRingFromParametersLiteral(p subRingParametersLiteral) (s *SubRing, er
 
 	s.N = 1 << int(p.LogN)
 
+	if s.N < MinimumRingDegreeForLoopUnrolledOperations {
+		return nil, fmt.Errorf("invalid ring degree: must be a power of 2 greater than %d", MinimumRingDegreeForLoopUnrolledOperations)
+	}
+
 	s.NTTTable = new(NTTTable)
 
 	/* #nosec G115 -- deserialization from valid subring -> N and NthRoot cannot be negative */
 	s.NthRoot = uint64(s.N) * uint64(p.NthRoot)
+
+	if p.Modulus == 0 {
+		return nil, fmt.Errorf("invalid modulus: must be a prime but is 0")
+	}
 
 	s.Modulus = p.Modulus
 
